@@ -64,7 +64,8 @@ def score2(s0a: bool, s0b: bool, s0c: bool, v0a: bool, v0b: bool, a0: bool,
     pre: True
     post: _
     """
-    tick()
+    if tick():
+        return True
     s0 = int(PART) if PART else bits(s0a, s0b, s0c)
     specs = [(s0, bits(v0a, v0b), a0, False, False, 1), (bits(s1a, s1b, s1c), bits(v1a, v1b), a1, False, False, 1)]
     if excluded("C03.score2", specs=specs):
@@ -81,7 +82,8 @@ def flags2(neg0: bool, a0: bool, mu0: bool, un0: bool, c0: bool,
     pre: True
     post: _
     """
-    tick()
+    if tick():
+        return True
     sup, lit = [bool(int(x)) for x in (PART or "1,1").split(",")]
     sa, sb = (3, 5) if lit else (1, 7)
     specs = [(sa, 0 if neg0 else 2, a0, mu0, un0, 0 if c0 else 1), (sb, 0 if neg1 else 2, a1, mu1, un1, 0 if c1 else 1)]
@@ -96,7 +98,8 @@ def score3(v0a: bool, v0b: bool, a0: bool, v1a: bool, v1b: bool, a1: bool, v2a: 
     pre: True
     post: _
     """
-    tick()
+    if tick():
+        return True
     s = [int(x) for x in (PART or "1,5,3").split(",")]
     specs = [(s[0], bits(v0a, v0b), a0, mu0, False, 1), (s[1], bits(v1a, v1b), a1, False, un1, 1),
              (s[2], bits(v2a, v2b), a2, False, False, 0)]
@@ -110,7 +113,8 @@ def score_reach(a0: bool, a1: bool) -> bool:
     pre: True
     post: _
     """
-    tick()
+    if tick():
+        return True
     r = Report()
     Feedback(label="f0", category="instructor", message="M0", activate=a0, score="+25%", valence=-1, report=r)
     Feedback(label="f1", category="instructor", message="M1", activate=a1, score=0.25, valence=-1, report=r)
